@@ -208,6 +208,25 @@ def check_property(pid, tier='quick', seed=0, replay_only=None):
     # an OPEN known finding whose obligation is discharged on this tree: the code around the finding changed.
     # Its recorded reason for not being repaired usually is that the obvious repair breaks something else, so the
     # unit's replay battery is run; a concrete failing input is a violation, otherwise only a note is printed.
+    # an OPEN known finding suppresses its obligation only while its RECORDED WITNESS still reproduces on the real
+    # code (the replay driver selects the witness battery from the obligation id).  If the obligation still fails but
+    # the witness is gone, the code around the finding changed: the unit's whole battery is run, and a concrete
+    # failing input is a violation of its own.
+    witness_checked = set()
+    for k in known_hits:
+        oid = k['obligation']
+        u = oid.split('/')[0]
+        if oid in witness_checked or u in rescue or u not in results:
+            continue
+        witness_checked.add(oid)
+        from . import replay as RP
+        res, why = RP.driver(pid, k.get('witness_replay_id', oid), seed)
+        if res is not None and not res.get('found'):
+            lines.append('NOTE property=%s the recorded witness of open known finding %s no longer reproduces although its obligation still fails' % (pid, oid))
+            path, found = RP.make_replay(pid, u + '/*', ['witness of known finding %s no longer reproduces; re-examining the unit by replay' % oid], {'text': 'whole replay battery of unit ' + u}, seed)
+            if found:
+                rescue.append(u)
+                lines.append('VIOLATION property=%s replay=%s' % (pid, path))
     for k in kf:
         oid = k['obligation']
         if oid in obligations and oid not in failed and oid not in lost:
